@@ -192,8 +192,9 @@ let ground_truth (case : string) (out : string) (kind : string) (ts : int) (hp :
   let entries = if script = "-" then [] else String.split_on_char ',' script in
   let npolls = List.length abs in
   if List.exists (fun e -> String.contains e '!') entries then count ("truth:skipped-dirty:" ^ kind)
-  else if not (no_other abs) then count ("truth:skipped-other-replies:" ^ kind)
   else begin
+    let strict = no_other abs in
+    if not strict then count ("truth:with-other-replies:" ^ kind);
     let popl = ref (if pop = "-" then [] else
       List.map (fun e -> int_of_string (List.hd (String.split_on_char '=' e))) (String.split_on_char ',' pop)) in
     (* (k, appear?, address) in the order the harness applies them: by call, then by position *)
@@ -219,11 +220,26 @@ let ground_truth (case : string) (out : string) (kind : string) (ts : int) (hp :
       let expect = List.sort compare (List.filter (fun a -> a <> ts) (List.sort_uniq compare !popl)) in
       if expect <> [] then count ("truth:checked-nonempty:" ^ kind);
       let final = (match List.rev abs with p :: _ -> bits_of_z p.ap_bits | [] -> []) in
-      if final <> expect then
-        report_fail "C18" "converges_to_population" case
-          (Printf.sprintf "expected {%s} got {%s} after %d calls, population fixed since call %d"
-             (String.concat "," (List.map string_of_int expect))
-             (String.concat "," (List.map string_of_int final)) npolls (2 * !last_change))
+      begin
+        (* some station may answer with something that is not a valid reply: whether IT is listed is left open, but
+           the sweep must go on behind it.  Per address of the final population: its last probe inside the
+           stable window decides - a valid reply: listed; never probed during two sweeps: not converging;
+           addresses outside the population: not listed. *)
+        let window = 2 * !last_change in
+        let last_cls = Hashtbl.create 16 in
+        List.iteri (fun i p -> if i >= window then
+          match p.ap_da with Some a -> Hashtbl.replace last_cls (int_of_z a) p.ap_cls | None -> ()) abs;
+        let bad = ref [] in
+        List.iter (fun a ->
+          match Hashtbl.find_opt last_cls a with
+          | None -> bad := Printf.sprintf "#%d never probed" a :: !bad
+          | Some (CValid _) -> if not (List.mem a final) then bad := Printf.sprintf "#%d answers validly, not listed" a :: !bad
+          | Some _ -> ()) expect;
+        List.iter (fun a -> if not (List.mem a expect) then bad := Printf.sprintf "#%d listed, not on the bus" a :: !bad) final;
+        if !bad <> [] then
+          report_fail "C18" "converges_to_population" case
+            (Printf.sprintf "%s; %d calls, population fixed since call %d" (String.concat "; " (List.rev !bad)) npolls window)
+      end
     end else count ("truth:too-short:" ^ kind)
   end
 
